@@ -6,11 +6,16 @@
    breaks an obligation; (ii) totality: the model has exactly two outcomes, a command list or
    ValueError; (iii) the model agrees with the grammar (spec/PathGrammar.v, written from the SVG 1.1
    BNF) on a fixed table of adversarial strings, by computation.
+   (iv) the print/parse round trip: for EVERY exploded command list whose numbers print to lexemes
+   the scanners read back completely (no separator, white-space or command-letter characters; the two
+   arc flags printed as 0 / 1), parsing the printed path returns exactly the list — all lengths, all
+   commands (E2_roundtrip.print_parse_roundtrip).  That the real printer (ntos = CPython str / int)
+   produces such lexemes is checked on every number the correspondence run prints (lexeme_ok).
    NOT yet a theorem (decided on every run by the exhaustive-string correspondence between the
    implementation and the model, and by the grammar judge on the implementation): soundness
-   against the grammar for ALL strings, and the print/parse round trip for all command lists. *)
+   against the grammar for ALL strings. *)
 From Coq Require Import ZArith List Bool Ascii String.
-From Pico Require Import Num PyStr Lex G_meta G_regex PathParse PathGrammar E2_pins.
+From Pico Require Import Num PyStr Lex G_meta G_regex PathParse PathGrammar E2_pins E2_roundtrip.
 Import ListNotations.
 Local Open Scope string_scope.
 
@@ -54,5 +59,24 @@ Example C10_table :
                  "M1 2h3v4H5V6"; "M1 2 S1 2 3 4 s1,2,3,4 T1 2 t3 4 q1 2 3 4"; "M+1+2"; "M1.5e+02 007"] = true.
 Proof. vm_compute. reflexivity. Qed.
 
-Definition C10_all := (C10_model_pinned_to_source_regexes, C10_parse_total, C10_table).
+(* printing then parsing returns the command list *)
+Theorem C10_print_parse_roundtrip : forall (A : Type) (pr : A -> chars) (val : A -> dec) (p : list (ascii * list A)),
+  Forall (cmd_ok A pr val) p ->
+  parse_svg_path true (print_path A pr p) = Ok (map (fun ca => (fst ca, map val (snd ca))) p).
+Proof. exact print_parse_roundtrip. Qed.
+
+(* the boolean the correspondence run evaluates on every printed number implies the token premise *)
+Theorem C10_lexeme_ok_is_premise : forall t, lexeme_ok false t = true -> token t /\ exists v, scan_float_re t = Some (v, []).
+Proof.
+  intros t H. unfold lexeme_ok in H. apply andb_true_iff in H. destruct H as [H Hs]. apply andb_true_iff in H. destruct H as [Hne Ht].
+  split; [split; [destruct t; [discriminate|discriminate]|exact Ht]|].
+  destruct (scan_float_re t) as [[v [|c r]]|]; try discriminate. exists v. reflexivity.
+Qed.
+
+Example C10_roundtrip_premise_met :
+  Forall (cmd_ok nat pr_digit val_digit)
+         [("M"%char, [1; 2]%nat); ("A"%char, [3; 4; 0; 1; 0; 5; 6]%nat); ("l"%char, [7; 8]%nat); ("Z"%char, [])].
+Proof. exact roundtrip_premise_met. Qed.
+
+Definition C10_all := (C10_model_pinned_to_source_regexes, C10_parse_total, C10_table, C10_print_parse_roundtrip, C10_lexeme_ok_is_premise, C10_roundtrip_premise_met).
 Print Assumptions C10_all.
